@@ -255,11 +255,27 @@ def rules_cascade(run):
             if op == '==' and {l, r_} & {tv + '.target'} and {l, r_} & set(names):
                 return 'TO'
             return None
+        gl = list(guards(c, stop=lp))
+        it = strip_cast(lp.iter)
+        if isinstance(it, ast.Name):
+            # collected first, removed afterwards:  involved = [t for t in self.transitions if ..];  for t in involved: remove_transition(t)
+            defs_ = q.assigned_value(F, it.id)
+            if len(defs_) == 1 and isinstance(strip_cast(defs_[0][1]), ast.ListComp) and len(strip_cast(defs_[0][1]).generators) == 1:
+                comp_ = strip_cast(defs_[0][1])
+                g_ = comp_.generators[0]
+                if isinstance(g_.target, ast.Name) and q.unparse(comp_.elt) == g_.target.id:
+                    tv = g_.target.id
+                    gl = gl + [(i_, True, 'comp') for i_ in g_.ifs]
+                    it = strip_cast(g_.iter)
+                    # a freshly built list is a copy already
+                    if q.unparse(it) in ('self.transitions', 'self._transitions'):
+                        it = ast.parse('list(%s)' % q.unparse(it), mode='eval').body
+        st_alias = st_alias + [x.targets[0].id for x in q.walk(F, False) if isinstance(x, ast.Assign) and isinstance(x.targets[0], ast.Name)
+                               and q.unparse(x.value) == 'self.state_for(%s).name' % np_]
         ba = q.BoolAbs(classify)
-        vs, sat = ba.table(guards(c, stop=lp))
+        vs, sat = ba.table(gl)
         bad = q.table_equals(vs, sat, lambda v: v.get('FROM', False) or v.get('TO', False))
         run.check(not bad and set(vs) == {'FROM', 'TO'}, r, fi.short, 'removed iff source or target is the state', 'condition differs (%s)' % vs, c)
-        it = strip_cast(lp.iter)
         src = q.unparse(it)
         run.check(src in ('list(self.transitions)', 'self.transitions', 'list(self._transitions)'), r, fi.short, 'all transitions examined, over a copy', 'iterates %s' % src, lp)
     for attr, klass in (('initial', 'CompoundState'), ('memory', 'HistoryStateMixin')):
@@ -286,13 +302,25 @@ def rules_cascade(run):
     nm = q.param_names(M)[1]
     rz = [x for x in q.raises_in(M) if q.raised_class(x) == 'StatechartError']
     good = False
+
+    def classify_mv(op, l, r_, e):
+        rhs = r_
+        if rhs.isidentifier():
+            rhs = q.resolved_text(M, ast.Name(id=rhs, ctx=ast.Load()))
+        rhs = rhs.replace(' ', '')
+        if op == 'in' and l == npar and rhs in ('[%s]+self.descendants_for(%s)' % (nm, nm), 'self.descendants_for(%s)+[%s]' % (nm, nm)):
+            return 'SELF_OR_DESC'
+        if op == 'in' and l == npar and rhs == 'self.descendants_for(%s)' % nm:
+            return 'DESC'
+        if op == '==' and {l, r_} == {npar, nm}:
+            return 'SELF'
+        return None
     for x in rz:
-        at = guard_atoms(x)
-        for a in at:
-            rhs = a[2]
-            if rhs.isidentifier():
-                rhs = q.resolved_text(M, ast.Name(id=rhs, ctx=ast.Load()))
-            if a[0] == 'in' and a[1] == npar and rhs.replace(' ', '') in ('[%s]+self.descendants_for(%s)' % (nm, nm), 'self.descendants_for(%s)+[%s]' % (nm, nm)):
+        ba = q.BoolAbs(classify_mv)
+        vs, sat = ba.table([g for g in guards(x) if not g[2].startswith('early')])
+        if set(vs) & {'SELF_OR_DESC', 'DESC', 'SELF'} and set(vs) <= {'SELF_OR_DESC', 'DESC', 'SELF'}:
+            bad = q.table_equals(vs, sat, lambda v: v.get('SELF_OR_DESC', False) or v.get('SELF', False) or v.get('DESC', False))
+            if not bad and ('SELF_OR_DESC' in vs or {'SELF', 'DESC'} <= set(vs)):
                 good = True
     run.check(good, r, mv.short, 'refuses to move a state into itself or one of its descendants', 'missing test', M)
     mv_alias = [x.targets[0].id for x in q.walk(M, False) if isinstance(x, ast.Assign) and isinstance(x.targets[0], ast.Name) and q.unparse(x.value) == 'self.state_for(%s)' % nm]
